@@ -8,7 +8,7 @@ ID = "C42"
 HARNESS_PKG = "c42"
 HARNESS_RUNNER = "c42"
 COQ_TARGETS = ["theories/C42/Corr.vo"]
-COQ_CORR_MODULE = "Base.Str C42.Model C42.Spec C42.Corr"
+COQ_CORR_MODULE = "Base.Str C42.Model C42.Spec C42.NbsModel C42.Corr"
 COQ_CASE_TYPE = "C42.Corr.case"
 COQ_CHECK = "C42.Corr.check_case"
 COQ_MODEL_OBS = "(fun c => C42.Corr.model_obs (fst c))"
@@ -30,19 +30,26 @@ LEVEL_NOTE = ("Trusted: Coq kernel, translator (constants only: positiveRange/is
 THEOREMS = ["cap_is_cas", "failed_cap_changes_nothing", "cap_succeeds_iff_expected_is_current", "one_winner_per_expected_version",
             "exactly_one_winner", "range_spec_inmem", "range_spec_local", "range_spec_nonneg", "range_spec_suffix", "spec_slice_is_window",
             "range_out_of_range_inmem", "range_out_of_range_local", "concat_spec", "concat_missing_source_local",
-            "concat_missing_source_is_error_refuted", "oracle_on_model"]
-REFUTED = ["concat_missing_source_is_error_refuted (InMemoryBlobstore.Concatenate treats a missing source as empty instead of failing)"]
+            "concat_missing_source_is_error_refuted", "read_then_cap_is_atomic", "read_then_cap_is_atomic_without_versions_distinct_refuted",
+            "bs_update_refines_local", "bs_store_same_semantics", "oracle_on_model"]
+REFUTED = ["concat_missing_source_is_error_refuted (InMemoryBlobstore.Concatenate treats a missing source as empty instead of failing)",
+           "read_then_cap_is_atomic_without_versions_distinct_refuted (with a reused version a stale CheckAndPut wins and overwrites: "
+           "what known finding blobstore.local:mtime-version-collision permits)"]
 RULE = ("op sequences Put/Get(range)/CheckAndPutManifest/Concatenate on 4 keys against a fresh in-memory or local blobstore; ranges drawn from boundaries "
         "(0, size, size+-1, negative offsets up to and beyond -size, length overshoots, length 0) plus an exhaustive (offset,length) sweep over small sizes; "
         "concurrent groups of n goroutines CheckAndPut with the same expected version (current or stale) with concurrent readers; non-trivial = at least one "
-        "write and one read or conditional write; distinct by case content")
+        "write and one read or conditional write; distinct by case content. NBS sub-case: Put/Rebase/Commit histories of 1-2 clients run on NomsBlockStores over an "
+        "InMemoryBlobstore, over a LocalBlobstore and on a local directory store; every client puts its own globally fresh chunks and commits one of its own chunks "
+        "(or the empty root / a dangling one), so the two known C02 patterns (identical concurrent commits) cannot arise; Commit(x,x) with nothing novel is generated "
+        "and is treated identically by all three stores and the model")
 ASSUMPTIONS = ["versions_distinct: a new write gets a non-empty version different from all earlier versions of that key (uuid / mtime with the 10 ms sleep); measured by the oracle on every run",
                "each API call is one atomic step (backend lock); unconditional Put of the manifest key is not raced against CheckAndPutManifest on the local backend",
                "blob sizes and offsets are far below 2^63 (no int64 overflow in positiveRange)"]
 REQUIRED_TAGS = ["backend-inmem", "backend-local", "get-inrange", "get-suffix", "get-len-overshoot", "get-at-end", "get-empty-blob", "get-notfound",
                  "get-neglen", "inmem-panic-beyond-end", "inmem-panic-neg-beyond", "local-empty-beyond-end", "local-err-neg-beyond",
                  "cap-win", "cap-lose", "cap-on-absent", "conc", "conc-one-winner", "conc-stale-no-winner", "conc-reader",
-                 "cat", "cat-missing-inmem-silent", "cat-missing-local-err", "cat-over-batch"]
+                 "cat", "cat-missing-inmem-silent", "cat-missing-local-err", "cat-over-batch",
+                 "nbs", "nbs-commit-ok", "nbs-commit-lost-race", "nbs-commit-retry-after-rebase", "nbs-dangling", "nbs-two-clients", "nbs-noop-commit"]
 
 NKEYS = 4
 
@@ -217,7 +224,113 @@ def gen_cases(rng, tier):
             cases.append(gen_cat_case(rng, be, big=(j % 5 == 0)))
         for _ in range(n_conc[idx]):
             cases.append(gen_conc_case(rng, be))
+    cases += [copy.deepcopy(c) for c in NBS_FIXED]
+    for _ in range(40 if quick else 2500):
+        cases.append(gen_nbs_case(rng))
     return cases
+
+
+# ---------------------------------------------------------------------------
+# NBS on a blobstore
+# ---------------------------------------------------------------------------
+def gen_nbs_case(rng):
+    n = rng.choice([1, 2, 2, 2])
+    ops = []
+    nxt = [1]
+    own = {c: [] for c in range(n)}        # chunks put by client c (globally fresh ids)
+    uncommitted = {c: [] for c in range(n)}
+    roots = [0]                            # roots ever proposed
+    for _ in range(rng.randint(4, 12)):
+        c = rng.randrange(n)
+        r = rng.random()
+        if r < 0.35:
+            x = nxt[0]; nxt[0] += 1
+            own[c].append(x); uncommitted[c].append(x)
+            ops.append({"c": c, "op": "put", "x": x})
+        elif r < 0.45:
+            ops.append({"c": c, "op": "rebase"})
+        else:
+            k = rng.random()
+            if uncommitted[c] and k < 0.75:
+                cur = rng.choice(uncommitted[c])          # a chunk of its own, put since its last successful commit
+            elif k < 0.85:
+                cur = 0
+            elif k < 0.93:
+                cur = 900 + rng.randrange(3)              # never put: dangling
+            elif own[c]:
+                cur = rng.choice(own[c])
+            else:
+                cur = 0
+            l = rng.random()
+            if l < 0.7:
+                last = -1
+            elif l < 0.85:
+                last = rng.choice(roots)
+            else:
+                last = cur if cur < 900 else -1           # Commit(x, x)
+            ops.append({"c": c, "op": "commit", "cur": cur, "last": last})
+            if cur < 900:
+                roots.append(cur)
+    univ = list(range(1, nxt[0])) + [900, 901, 902]
+    return {"kind": "nbs", "n": n, "univ": univ, "ops": ops}
+
+
+NBS_FIXED = [
+    {"kind": "nbs", "n": 2, "univ": [1, 2, 3, 4, 5], "ops": [
+        {"c": 0, "op": "put", "x": 1}, {"c": 0, "op": "commit", "cur": 1, "last": -1}, {"c": 1, "op": "put", "x": 2},
+        {"c": 1, "op": "commit", "cur": 2, "last": -1}, {"c": 1, "op": "commit", "cur": 2, "last": -1}, {"c": 0, "op": "put", "x": 3},
+        {"c": 0, "op": "commit", "cur": 4, "last": -1}, {"c": 0, "op": "commit", "cur": 0, "last": 0}, {"c": 0, "op": "rebase"},
+        {"c": 0, "op": "commit", "cur": 3, "last": 2}, {"c": 1, "op": "commit", "cur": 2, "last": 2}]},
+]
+
+
+def _nbs_op_term(i, op):
+    if op["op"] == "put":
+        return "(%d%%nat, NPut %d)" % (op["c"], op["x"])
+    if op["op"] == "rebase":
+        return "(%d%%nat, NRebase)" % op["c"]
+    last = "None" if op["last"] < 0 else "(Some %d)" % op["last"]
+    return "(%d%%nat, NCommit %d %s %d %d)" % (op["c"], op["cur"], last, 2 * i + 1, 2 * i + 2)
+
+
+def _nbs_steps_term(steps):
+    return cq_list("{| no_res := %d; no_croot := %d; no_droot := %d; no_froot := %d; no_fhas := %s |}" %
+                   (s["res"], s["croot"], s["droot"], s["froot"], cq_bytes(s["fhas"])) for s in steps)
+
+
+def _nbs_coq_case(case, out):
+    inp = "INbs %d%%nat %s %s" % (case["n"], cq_bytes(case["univ"]), cq_list(_nbs_op_term(i, op) for i, op in enumerate(case["ops"])))
+    o = out.get("obs") if out else None
+    if o is None:
+        return "(%s, ONbs [] [] [])" % inp
+    return "(%s, ONbs %s %s %s)" % (inp, _nbs_steps_term(o["bsinmem"]), _nbs_steps_term(o["bslocal"]), _nbs_steps_term(o["local"]))
+
+
+def _nbs_classify(case, o):
+    t = {"nbs"}
+    if case["n"] > 1 and len({op["c"] for op in case["ops"]}) > 1:
+        t.add("nbs-two-clients")
+    prev_false = {}
+    for op, s in zip(case["ops"], o["local"]):
+        if op["op"] != "commit":
+            continue
+        if s["res"] == 0:
+            t.add("nbs-commit-ok")
+            if prev_false.get(op["c"]):
+                t.add("nbs-commit-retry-after-rebase")
+            if op["last"] == op["cur"]:
+                t.add("nbs-noop-commit")
+            prev_false[op["c"]] = False
+        elif s["res"] == 1:
+            t.add("nbs-commit-lost-race"); prev_false[op["c"]] = True
+        elif s["res"] == 2:
+            t.add("nbs-dangling")
+        else:
+            t.add("nbs-other-error")
+    for k in ("bsinmem", "bslocal"):
+        if o[k] != o["local"]:
+            t.add("nbs-DIFFERS-" + k)
+    return sorted(t)
 
 
 # ---------------------------------------------------------------------------
@@ -263,11 +376,13 @@ def _linearise(conc_ops, conc_res):
 
 
 def coq_case(case, out):
+    if case.get("kind") == "nbs":
+        return _nbs_coq_case(case, out)
     be = "InMem" if case["backend"] == "inmem" else "Local"
     o = out.get("obs") if out else None
     if o is None:
         sch = ["(0, %s)" % _op_term(op, None) for op in case["pre"] + case["conc"] + case["post"]]
-        return "((%s, %s), [])" % (be, cq_list(sch))       # no observation: agrees with no model run, fails the oracle
+        return "(IBlob %s %s, OBlob [])" % (be, cq_list(sch))       # no observation: agrees with no model run, fails the oracle
     sch, rs = [], []
     for op, r in zip(case["pre"], o["pre"]):
         sch.append("(0, %s)" % _op_term(op, r)); rs.append(_res_term(r))
@@ -275,7 +390,7 @@ def coq_case(case, out):
         sch.append("(%d, %s)" % (i + 1, _op_term(case["conc"][i], o["conc"][i]))); rs.append(_res_term(o["conc"][i]))
     for op, r in zip(case["post"], o["post"]):
         sch.append("(0, %s)" % _op_term(op, r)); rs.append(_res_term(r))
-    return "((%s, %s), %s)" % (be, cq_list(sch), cq_list(rs))
+    return "(IBlob %s %s, OBlob %s)" % (be, cq_list(sch), cq_list(rs))
 
 
 # ---------------------------------------------------------------------------
@@ -283,6 +398,8 @@ def classify(case, out):
     o = out.get("obs") if out else None
     if o is None:
         return ["panic-or-harness-error"]
+    if case.get("kind") == "nbs":
+        return _nbs_classify(case, o)
     be = case["backend"]
     t = {"backend-" + be}
     sizes = {}
@@ -353,6 +470,8 @@ def classify(case, out):
 
 
 def nontrivial(case, out):
+    if case.get("kind") == "nbs":
+        return any(op["op"] == "commit" for op in case["ops"])
     ops = case["pre"] + case["conc"] + case["post"]
     return any(op["op"] != "get" for op in ops) and any(op["op"] in ("get", "cap") for op in ops)
 
@@ -373,6 +492,11 @@ def _drop(case, part, j):
 
 
 def shrink_candidates(case):
+    if case.get("kind") == "nbs":
+        for j in reversed(range(len(case["ops"]))):
+            c = copy.deepcopy(case); del c["ops"][j]
+            yield c
+        return
     for part in ("post", "conc", "pre"):
         for j in reversed(range(len(case[part]))):
             yield _drop(case, part, j)
@@ -385,6 +509,8 @@ def shrink_candidates(case):
 
 def neighbours(case, rng):
     out = []
+    if case.get("kind") == "nbs":
+        return [gen_nbs_case(rng) for _ in range(40)]
     for part in ("pre", "post"):
         for j, op in enumerate(case[part]):
             if op["op"] == "get":
@@ -402,6 +528,7 @@ def search_cases(rng):
     for be in ("inmem", "local"):
         for _ in range(10):
             out.append(gen_conc_case(rng, be))
+    out += [gen_nbs_case(rng) for _ in range(30)]
     return out
 
 
@@ -414,7 +541,7 @@ FRESHNESS_KEY = "blobstore.local:mtime-version-collision"
 def _version_collision(case, out):
     """A successful write whose returned version equals an earlier version of the same key (interned ids)."""
     o = out.get("obs") if out else None
-    if o is None:
+    if o is None or case.get("kind") == "nbs":
         return None
     used = set()
     ops = list(zip(case["pre"], o["pre"])) + list(zip(case["conc"], o["conc"])) + list(zip(case["post"], o["post"]))
@@ -438,9 +565,13 @@ def run_impl(ctx, binary, cases):
     for i, (c, o) in enumerate(zip(cases, outs)):
         tries = 0
         while _version_collision(c, outs[i]) is not None and tries < 4:
-            if collisions == 0:
-                print("KNOWN-FINDING: property=%s LocalBlobstore handed the same version (mtime string) to two successive writes of one key; "
-                      "a conditional write with the older expectation would then succeed [key=%s; not yet listed in known_findings.json]" % (ID, FRESHNESS_KEY))
+            if collisions == 0 and FRESHNESS_KEY not in ctx.known_seen:
+                listed = [f for f in vlib.load_known(ID) if f.get("key") == FRESHNESS_KEY and str(f.get("status", "")).startswith("open")]
+                if listed:
+                    print("KNOWN-FINDING: property=%s %s" % (ID, listed[0]["what_fails"]))
+                else:
+                    print("KNOWN-FINDING: property=%s LocalBlobstore handed the same version (mtime string) to two successive writes of one key; "
+                          "a conditional write with the older expectation would then succeed [key=%s; not listed in known_findings.json]" % (ID, FRESHNESS_KEY))
                 ctx.known_seen.append(FRESHNESS_KEY)
                 ctx.notes.append("version collision first seen on case %d: %r -> %r" % (i, c, outs[i].get("obs")))
             collisions += 1
